@@ -121,6 +121,60 @@ def build_obligation(inst):
             return [(got, exp)]
         return ob
 
+    if kind == "markov_binder":
+        # the time variable of a lazily built MarkovProduct is BOUND: renaming a free batch input of the transition
+        # onto the time variable's name (or any other name) must not be captured, also when the transition itself
+        # does not depend on time
+        _, T, S, sr, homogeneous, time_name, free_name, how = inst
+
+        def ob(mk):
+            import numpy as np
+            from collections import OrderedDict
+            import funsor
+            import funsor.ops as ops
+            from funsor import Bint, Tensor, Variable
+            from funsor import sum_product as SP
+            from funsor.interpretations import lazy, reflect
+            from harness.core import result_cells
+            from harness.oblig import Decline
+            from lang import cellops as C
+            from symx.symarray import as_obj
+            sum_op, prod_op = getattr(ops, sr[0]), getattr(ops, sr[1])
+            inputs = OrderedDict(b=Bint[T])
+            if not homogeneous:
+                inputs[time_name] = Bint[T]
+            inputs["prev"] = Bint[S]
+            inputs["curr"] = Bint[S]
+            a = mk.array("trans", tuple(d.size for d in inputs.values()), sr[2])
+            trans = Tensor(a, inputs)
+            time = Variable(time_name, Bint[T])
+            try:
+                with (reflect if how == "reflect" else lazy):
+                    mp = SP.MarkovProduct(sum_op, prod_op, trans, time, {"prev": "curr"})
+                    sub = mp(b=Variable(free_name, Bint[T]))
+                r = funsor.reinterpret(sub)
+            except (NotImplementedError, ValueError, AssertionError) as e:
+                raise Decline("%s: %s" % (type(e).__name__, str(e)[:80]))
+            import z3
+            side = set(r.inputs) == {free_name, "prev", "curr"}
+            pairs = [(z3.BoolVal(side) if mk.symbolic else side, None)]
+            if not side:
+                return pairs
+            cells = as_obj(a)
+            cfg = dict(duration=T, pairs=[("prev", "curr", S)], sum_op=sr[0], prod_op=sr[1],
+                       axes=[("batch", "b")] + ([] if homogeneous else [("time", time_name)]) + [("prev", "prev"), ("curr", "curr")])
+            got, exp = [], []
+            for b in range(T):
+                R = fold_oracle(cfg, cells, dict(b=b), C)
+                for s0 in range(S):
+                    for s1 in range(S):
+                        g = result_cells(r, {free_name: b, "prev": s0, "curr": s1})
+                        got.append(g[()])
+                        exp.append(R[((s0,), (s1,))])
+            pairs.append((got, exp))
+            return pairs
+        return ob
+
     if kind == "sarkka":
         _, cfg = inst
 
@@ -177,6 +231,8 @@ def _label(inst):
     if inst[0] == "markov":
         c = inst[1]
         return "%s|%s/%s|T=%d pairs=%s batch=%s axes=%s" % (inst[2], c["sum_op"], c["prod_op"], c["duration"], [(p, q, s) for p, q, s in c["pairs"]], c["batch"], [n for _, n in c["axes"]])
+    if inst[0] == "markov_binder":
+        return "markov_binder|%s/%s|T=%d S=%d homogeneous=%s time=%r free=%r built under %s" % (inst[3][0], inst[3][1], inst[1], inst[2], inst[4], inst[5], inst[6], inst[7])
     c = inst[1]
     return "sarkka|%s/%s|T=%d names=%s globals=%s periods=%d" % (c["sum_op"], c["prod_op"], c["duration"], c["names"], list(c.get("globals", ())), c["num_periods"])
 
@@ -222,6 +278,13 @@ def instances(tier, seed):
                 cfg = dict(sum_op=sum_op, prod_op=prod_op, carrier=car, duration=T, pairs=pairs, batch={}, axes=axes)
                 for v in ["sequential", "naive", "markov_eager", "markov_lazy"] + ["mixed%d" % k for k in range(1, T + 1)]:
                     out.append(("markov", cfg, v))
+    # the time variable is a binder: renaming a free batch input onto its name must not be captured
+    for sr in SEMIRINGS[:2]:
+        for T in ((2,) if tier == "quick" else (2, 3, 4)):
+            for homogeneous in (True, False):
+                for time_name, free_name in (("time", "c"), ("t", "time"), ("time", "time"), ("t", "t")):
+                    for how in ("reflect", "lazy"):
+                        out.append(("markov_binder", T, 2, sr, homogeneous, time_name, free_name, how))
     # time-lagged models
     lagsets = [(1,), (2,), (1, 2), (3,), (1, 3), (2, 3), (1, 2, 3)]
     for sum_op, prod_op, car in SEMIRINGS[:3] if tier == "quick" else SEMIRINGS:
